@@ -335,6 +335,44 @@ fn after_aborted(ctx: &Ctx, rep: &mut Report) {
     }
 }
 
+/// EVERY parameter value 0..=65535, alone and between two neighbours, from the default and
+/// from a loaded pen: implemented codes fold, all others are skipped without a trace
+fn every_value(ctx: &Ctx, rep: &mut Report) {
+    let vals: Vec<u32> = (0..=65535u32).collect();
+    let bad: Vec<(u32, String)> = vals
+        .par_iter()
+        .filter_map(|&v| {
+            // (38 and 48 introduce colour forms: alone they are covered by `long-sequences`)
+            let loaded = vec![vec![Some(1u32)], vec![Some(4)], vec![Some(33)], vec![Some(45)]];
+            let alone = vec![vec![Some(v)]];
+            let between = vec![vec![Some(3u32)], vec![Some(v)], vec![Some(9)]];
+            for seqs in [vec![alone.clone()], vec![loaded.clone(), alone.clone()], vec![loaded.clone(), between.clone()]] {
+                if (v == 38 || v == 48) && seqs.last().map(|s| s.len()) == Some(3) {
+                    continue;
+                }
+                for c1 in [false, true] {
+                    if let Err(e) = run_sgr(&seqs, c1) {
+                        return Some((v, format!("SGR {:?}: {}", seqs.last().unwrap(), e)));
+                    }
+                }
+            }
+            None
+        })
+        .collect();
+    let runs = vals.len() as u64 * 6;
+    rep.evaluations += runs;
+    rep.traces_validated += runs;
+    rep.transitions += runs;
+    rep.parts.push(json!({"part":"every-parameter-value","values":vals.len(),"runs":runs,"violating":bad.len()}));
+    println!("part every-parameter-value: {} values, {} violating", vals.len(), bad.len());
+    for (v, e) in bad.iter().take(3) {
+        emit_violation(ctx, rep, "C08", json!({"part":"every-parameter-value","value":v,"oracle":"sgr-fold","observed":e}));
+    }
+    if bad.len() > 3 {
+        rep.violations += bad.len() as u64 - 3;
+    }
+}
+
 /// long sequences (17..32 parameters in ONE sequence) and lone 38/48
 fn long_sequences(ctx: &Ctx, rep: &mut Report) {
     let one = |v: u32| vec![Some(v)];
@@ -418,20 +456,24 @@ pub fn run(ctx: &Ctx) -> Report {
     all_indices(ctx, &mut rep);
     long_sequences(ctx, &mut rep);
     after_aborted(ctx, &mut rep);
-    rep.rule = "(a) lock-step BFS to FIXPOINT over the pen space: every implemented SGR code as its own sequence (both colour encodings, 7/8-bit CSI, unknown codes), each followed by CR, a printed char and EL; the hidden pen and both cells (all nine accessors) are compared for every reachable prior pen; (b) every ordered pair and triple from 24 representative parameters inside one sequence and as separate sequences, 7- and 8-bit; (c) all 256 indices x fg/bg x ';' and ':' forms; (d) lock-step BFS from a letter-filled screen over every way of blanking cells (EL/ED/ECH/ICH/DCH/IL/DL/SU/SD, LF/RI/NEL and wrap scrolls in top-anchored, inner and full regions, alternate-screen entry) under three pens: a vacated blank must carry the current pen; (e) every representative parameter and pair directly after each of 18 inputs that collect parameters but dispatch nothing (cancelled, ignored, unfinished sequences, control strings with headers), 7- and 8-bit CSI, from the default and a loaded pen".into();
+    every_value(ctx, &mut rep);
+    super::sweep::mode_number_sweep(ctx, &mut rep, &SYS);
+    rep.rule = "(a) lock-step BFS to FIXPOINT over the pen space: every implemented SGR code as its own sequence (both colour encodings, 7/8-bit CSI, unknown codes), each followed by CR, a printed char and EL; the hidden pen and both cells (all nine accessors) are compared for every reachable prior pen; (b) every ordered pair and triple from 24 representative parameters inside one sequence and as separate sequences, 7- and 8-bit; (c) all 256 indices x fg/bg x ';' and ':' forms; (d) lock-step BFS from a letter-filled screen over every way of blanking cells (EL/ED/ECH/ICH/DCH/IL/DL/SU/SD, LF/RI/NEL and wrap scrolls in top-anchored, inner and full regions, alternate-screen entry) under three pens: a vacated blank must carry the current pen; (e) every representative parameter and pair directly after each of 18 inputs that collect parameters but dispatch nothing (cancelled, ignored, unfinished sequences, control strings with headers), 7- and 8-bit CSI, from the default and a loaded pen; (f) every parameter value 0..=65535 alone and between two neighbours; (g) every private mode number 0..=65535 set and reset from a loaded state: none but the restoring ones may touch the pen".into();
     rep.assumptions = vec!["malformed colour forms and components > 255 are unspecified and not generated".into()];
     rep
 }
 
 pub fn replay(ctx: &Ctx, v: &Value) -> bool {
     match v["part"].as_str().unwrap_or("") {
-        "parameter-combinations" | "all-indices" | "long-sequences" | "after-aborted-sequences" => {
+        "every-mode-number" => super::sweep::mode_number_replay(ctx, &SYS),
+        "parameter-combinations" | "all-indices" | "long-sequences" | "after-aborted-sequences" | "every-parameter-value" => {
             let mut rep = Report::new();
             let c2 = Ctx { id: ctx.id.clone(), tier: Tier::Thorough, seed: 0, start: ctx.start, known: ctx.known.clone(), replay_dir: ctx.replay_dir.clone() };
             combos(&c2, &mut rep);
             all_indices(&c2, &mut rep);
             long_sequences(&c2, &mut rep);
             after_aborted(&c2, &mut rep);
+            every_value(&c2, &mut rep);
             rep.violations > 0
         }
         "every-way-of-blanking" => {
